@@ -96,7 +96,11 @@ func (l *kaLog) await(d time.Duration, pred func() bool) bool {
 	}
 }
 
-func (l *kaLog) bytes() []byte { l.mu.Lock(); defer l.mu.Unlock(); return bytes.Join(l.lines, []byte("\n")) }
+func (l *kaLog) bytes() []byte {
+	l.mu.Lock()
+	defer l.mu.Unlock()
+	return bytes.Join(l.lines, []byte("\n"))
+}
 
 type kaClient struct {
 	p    int
@@ -255,7 +259,7 @@ type kaScenario struct {
 	Players int      `json:"players,omitempty"`
 	Rounds  int      `json:"rounds,omitempty"`
 	StallMs int      `json:"stall_ms"`
-	Async   bool     `json:"async"`     // run with GODEBUG=asynctimerchan=1 (what go-mc's go.mod selects); else go1.23 timer channels
+	Async   bool     `json:"async"`      // run with GODEBUG=asynctimerchan=1 (what go-mc's go.mod selects); else go1.23 timer channels
 	Judge   string   `json:"judge_sync"` // "" -> timer bounds iff !Async; "sync" -> timer bounds although Async (probe-stale)
 }
 
@@ -526,7 +530,10 @@ func kaClassify(trace []byte, hwm int, ownDelay bool) (sig, line string) {
 	if hwm < 1 || hwm > len(lines) {
 		return "trace rejected", ""
 	}
-	type sh struct{ joined, left, kicked, everPinged bool; outstanding int }
+	type sh struct {
+		joined, left, kicked, everPinged bool
+		outstanding                      int
+	}
 	pl := map[int]*sh{}
 	get := func(p int) *sh {
 		if pl[p] == nil {
